@@ -105,7 +105,9 @@ func (x *Run) loadField(st *State, ref string, ty types.Type, i int) Val {
 	x.assumeType(st, v)
 	if ct, ok := types.Unalias(ft).Underlying().(*types.Chan); ok && x.closable != nil && !x.closable[typeKey(ct.Elem())] && !x.closable["field:"+name] {
 		// no close() of a channel with this element type exists in the loaded frp packages
-		st.assume(not(sel(x.arr(st, x.chClosedArr(ft)), v.T)))
+		vv := v
+		vv.Origin = name
+		st.assume(not(sel(x.arr(st, x.chClosedFor(vv, ft)), v.T)))
 		x.mu.Lock()
 		x.opaque["neverclosed:"+name] = true
 		x.mu.Unlock()
@@ -133,7 +135,10 @@ func (x *Run) storeField(st *State, ref string, ty types.Type, i int, v Val) {
 			st.lit[name] = map[string]Val{}
 		}
 		st.lit[name][ref] = Val{T: v.T, S: v.S, Ty: v.Ty, Fields: v.Fields}
-	} else if len(st.lit[name]) > 0 {
+	} else {
+		st.dirty[name] = true
+	}
+	if !isNegLit(ref) && len(st.lit[name]) > 0 {
 		// a store through a symbolic reference cannot hit an object allocated on
 		// this path only if that reference is known non-negative; be conservative
 		delete(st.lit, name)
@@ -266,6 +271,8 @@ func (x *Run) load(st *State, a *Addr, ty types.Type) Val {
 			if len(a.Sel) == 0 {
 				v.Origin = fieldArrayName(a.Ty, a.Field)
 			}
+		} else if _, isSig := types.Unalias(v.Ty).Underlying().(*types.Signature); isSig && len(a.Sel) == 0 {
+			v.Origin = fieldArrayName(a.Ty, a.Field)
 		}
 	case ACell:
 		c, ok := st.cells[a.Cell]
@@ -351,6 +358,7 @@ func (x *Run) storeAddr(st *State, a *Addr, v Val, site ssa.Instruction) {
 		}
 		name := x.ptrArr(a.Ty)
 		x.setArr(st, name, store(x.arr(st, name), a.Ref, v.T))
+		st.dirty[name] = true
 	case AElem:
 		x.unsupported("store into slice element (value-semantics slices)", site.Pos())
 	}
@@ -435,6 +443,13 @@ func (x *Run) mapLen(st *State, m Val) string {
 
 func (x *Run) mapSet(st *State, m Val, k string, v Val) {
 	a := x.mapArrs(mapTypeOf(m.Ty))
+	if !isNegLit(m.T) {
+		if m.Origin != "" {
+			st.dirty["map:"+m.Origin] = true
+		} else {
+			st.dirty[a.dom] = true
+		}
+	}
 	dom := x.arr(st, a.dom)
 	was := sel(sel(dom, m.T), k)
 	ln := x.arr(st, a.ln)
@@ -446,6 +461,13 @@ func (x *Run) mapSet(st *State, m Val, k string, v Val) {
 
 func (x *Run) mapDelete(st *State, m Val, k string) {
 	a := x.mapArrs(mapTypeOf(m.Ty))
+	if !isNegLit(m.T) {
+		if m.Origin != "" {
+			st.dirty["map:"+m.Origin] = true
+		} else {
+			st.dirty[a.dom] = true
+		}
+	}
 	dom := x.arr(st, a.dom)
 	was := sel(sel(dom, m.T), k)
 	ln := x.arr(st, a.ln)
@@ -496,6 +518,20 @@ func (x *Run) mkSlice(s Sort, arr, ln string) string {
 
 // chClosedArr: ghost closed-flag array, one per channel element type
 // (channels of different types never alias).
+// chClosedFor: the closed-flag array for a channel value. Channels made on
+// this path (literal refs) use the per-type array; channels loaded from a
+// struct field use an array per field (A-CHANFIELD: a channel held in a
+// struct field is closed only through that field), so that effects of
+// unrelated code on other channels of the same type do not clobber it.
+func (x *Run) chClosedFor(v Val, t types.Type) string {
+	if v.Origin != "" && !isNegLit(v.T) {
+		name := "ChClosed@" + v.Origin
+		x.arrSort(name, "(Array Int Bool)")
+		return name
+	}
+	return x.chClosedArr(t)
+}
+
 func (x *Run) chClosedArr(t types.Type) string {
 	name := "ChClosed"
 	if t != nil {
